@@ -19,20 +19,36 @@ Theorem spec_is_documented_loss_law : forall alpha d_o cp m Text Tin x,
 Proof. intros. split; [apply cooling_profile_inlet | now apply documented_loss_law]. Qed.
 Print Assumptions spec_is_documented_loss_law.
 
-(* ---- 1. cooling law: generated branch residual = 0  <->  outlet temperature on the documented law *)
-Theorem branch_cooling_law_numpy : forall amb al d L m Q Text TL cpb cpn nf ti ti1 tn tnt,
+(* ---- 0. which pit column each positional input of the generated kernels is.  The kernel definitions are
+        positional; this generated table pins the names: the diameter in the heat-loss term is the OUTER diameter
+        column DO (not the inner diameter D), the loss coefficient ALPHA, the ambient temperature TEXT, ...; the
+        temperatures handed in are T(corrected from node), TOUTINIT, T(corrected to node) *)
+Theorem kernel_inputs_are_the_documented_columns :
+  therm_kernel_inputs =
+  [("therm_np", ["amb"; "bp_ALPHA"; "bp_DO"; "bp_LENGTH"; "bp_MDOTINIT"; "bp_QEXT"; "bp_TEXT"; "bp_TL"; "cp_b"; "cp_n";
+                 "nodes_flow"; "t_init_i"; "t_init_i1"; "t_init_n"; "t_init_nt"]);
+   ("therm_nb", ["amb"; "bp_ALPHA"; "bp_DO"; "bp_LENGTH"; "bp_MDOTINIT"; "bp_QEXT"; "bp_TEXT"; "bp_TL"; "cp_b"; "cp_n";
+                 "nodes_flow"; "t_init_i"; "t_init_i1"; "t_init_n"; "t_init_nt"]);
+   ("thermexpr", ["bp_TOUTINIT"; "fl_cp"; "np_from_TINIT"; "np_to_TINIT"]);
+   ("branch_cp", ["bp_TOUTINIT"; "fl_cp"; "np_from_TINIT"])]%string.
+Proof. reflexivity. Qed.
+Print Assumptions kernel_inputs_are_the_documented_columns.
+
+(* ---- 1. cooling law: generated branch residual = 0  <->  outlet temperature on the documented law
+        (argument order as pinned above: amb ALPHA DO LENGTH MDOTINIT QEXT TEXT TL cp_b cp_n ...; d_o = column DO) *)
+Theorem branch_cooling_law_numpy : forall amb al d_o L m Q Text TL cpb cpn nf ti ti1 tn tnt,
   (flows m ->
-     (therm_np_fb amb al d L m Q Text TL cpb cpn nf ti ti1 tn tnt = 0 <->
-      ti1 = Text + (ti - Text) * exp (- (al * L * PI * d / (cpb * Rabs m))) + TL - Q / (cpb * Rabs m))) /\
-  (~ flows m -> (therm_np_fb amb al d L m Q Text TL cpb cpn nf ti ti1 tn tnt = 0 <-> ti1 = amb)).
+     (therm_np_fb amb al d_o L m Q Text TL cpb cpn nf ti ti1 tn tnt = 0 <->
+      ti1 = Text + (ti - Text) * exp (- (al * L * PI * d_o / (cpb * Rabs m))) + TL - Q / (cpb * Rabs m))) /\
+  (~ flows m -> (therm_np_fb amb al d_o L m Q Text TL cpb cpn nf ti ti1 tn tnt = 0 <-> ti1 = amb)).
 Proof. exact branch_cooling_law_np. Qed.
 Print Assumptions branch_cooling_law_numpy.
 
-Theorem branch_cooling_law_numba : forall amb al d L m Q Text TL cpb cpn nf ti ti1 tn tnt,
+Theorem branch_cooling_law_numba : forall amb al d_o L m Q Text TL cpb cpn nf ti ti1 tn tnt,
   (flows m ->
-     (therm_nb_fb amb al d L m Q Text TL cpb cpn nf ti ti1 tn tnt = 0 <->
-      ti1 = Text + (ti - Text) * exp (- (al * L * PI * d / (cpb * Rabs m))) + TL - Q / (cpb * Rabs m))) /\
-  (~ flows m -> (therm_nb_fb amb al d L m Q Text TL cpb cpn nf ti ti1 tn tnt = 0 <-> ti1 = amb)).
+     (therm_nb_fb amb al d_o L m Q Text TL cpb cpn nf ti ti1 tn tnt = 0 <->
+      ti1 = Text + (ti - Text) * exp (- (al * L * PI * d_o / (cpb * Rabs m))) + TL - Q / (cpb * Rabs m))) /\
+  (~ flows m -> (therm_nb_fb amb al d_o L m Q Text TL cpb cpn nf ti ti1 tn tnt = 0 <-> ti1 = amb)).
 Proof. exact branch_cooling_law_nb. Qed.
 Print Assumptions branch_cooling_law_numba.
 
